@@ -131,12 +131,13 @@ Lemma suballoc_rt s : suballoc_wf s = true ->
   exists t, from_suballoc s = Ok t /\ to_suballoc (Some t) = Ok s.
 Proof.
   unfold suballoc_wf. intro H. split_and.
-  match goal with H : bigints_ok _ = true |- _ => apply bigints_ok_nonneg in H; rename H into Hb end.
+  match goal with H : bigints_ok _ = true |- _ => pose proof (bigints_ok_nonneg _ H) as Hb; rename H into Hl end.
   destruct (balance_rt _ Hb) as (t & Hf & Ht).
   unfold from_suballoc. rewrite Hf. cbn [res_bind]. eexists; split; [reflexivity|].
-  unfold to_suballoc. cbn [og psa_id psa_bals psa_imap].
+  unfold to_suballoc. cbn [og psa_id psa_bals psa_imap]. cbv zeta. rewrite Ht.
+  unfold balance_lengths_ok. rewrite Hl. cbn [negb].
   match goal with H : (length (sa_id s) =? 32)%nat = true |- _ => rewrite H end. cbn [negb].
-  rewrite index_map_rt by assumption. cbn [res_bind]. rewrite Ht. destruct s; reflexivity.
+  rewrite index_map_rt by assumption. cbn [res_bind]. destruct s; reflexivity.
 Qed.
 
 Lemma balances_wf_nonneg b : balances_wf b = true -> forallb nonneg b = true.
@@ -144,6 +145,21 @@ Proof.
   unfold balances_wf. intro H. split_and. apply forallb_forall. intros r Hr.
   match goal with H : forallb _ b = true |- _ => rewrite forallb_forall in H; specialize (H r Hr) end.
   split_and. apply bigints_ok_nonneg. assumption.
+Qed.
+
+Lemma balances_wf_lengths b : balances_wf b = true -> forallb balance_lengths_ok b = true.
+Proof.
+  unfold balances_wf. intro H. split_and. apply forallb_forall. intros r Hr.
+  match goal with H : forallb _ b = true |- _ => rewrite forallb_forall in H; specialize (H r Hr) end.
+  split_and. assumption.
+Qed.
+
+Lemma balances_wf_dims b : balances_wf b = true -> fa_dims_ok b = true.
+Proof.
+  unfold balances_wf, fa_dims_ok. intro H. split_and. apply andb_true_iff; split; [assumption|].
+  apply forallb_forall. intros r Hr.
+  match goal with H : forallb _ b = true |- _ => rewrite forallb_forall in H; specialize (H r Hr) end.
+  split_and. match goal with H : (len r =? _) = true |- _ => apply N.eqb_eq in H; rewrite H end. assumption.
 Qed.
 
 Lemma backends_rt l : forallb known_backend l = true ->
@@ -199,6 +215,7 @@ Proof.
   rewrite HL, Nat.eqb_refl. cbn [negb].
   rewrite assets_rt; [|rewrite map_length; exact HL|exact B4|assumption].
   cbn [res_bind]. rewrite L2. cbn [res_bind]. rewrite B3, F2.
+  rewrite balances_wf_lengths by assumption. cbn [negb].
   replace (mkAlloc (al_backends a) (al_assets a) (al_bals a) (al_locked a)) with a by (destruct a; reflexivity).
   match goal with H : alloc_valid a = true |- _ => rewrite H end. reflexivity.
 Qed.
@@ -333,7 +350,9 @@ Proof.
     destruct (balances_rt _ (balances_wf_nonneg _ H)) as (tf & F1 & F2) end.
   unfold from_baseprop. rewrite A1. cbn [res_bind]. rewrite F1. cbn [res_bind]. eexists; split; [reflexivity|].
   unfold to_baseprop. cbn [og pbp_id pbp_cd pbp_nonce pbp_app pbp_data pbp_bals pbp_fa pbp_aux].
-  rewrite A2. cbn [res_bind]. rewrite app_data_rt by assumption. cbn [res_bind fst snd]. rewrite F2.
+  rewrite A2. cbn [res_bind]. rewrite F2.
+  rewrite balances_wf_dims, balances_wf_lengths by assumption. cbn [negb].
+  rewrite app_data_rt by assumption. cbn [res_bind fst snd].
   rewrite !copy_to_exact by (apply Nat.eqb_eq; assumption). destruct b; reflexivity.
 Qed.
 
@@ -377,7 +396,10 @@ Proof.
     match goal with H : ramaps_wf _ = true |- _ => unfold ramaps_wf in H end. split_and.
     match goal with H : forallb ramap_wf ?l = true |- _ => destruct (ramaps_rt l H K) as (tp & P1 & P2) end.
     use_rt. cbn [from_msg]. rewrite F, F0, P1. cbn [res_bind]. eexists; split; [reflexivity|].
-    cbn [to_msg og plp_base plp_part plp_peers]. rewrite T, T0, P2. reflexivity.
+    cbn [to_msg og plp_base plp_part plp_peers]. rewrite T, T0, P2. cbn [res_bind].
+    repeat match goal with H : (_ <=? _) = true |- _ => apply N.leb_le in H end.
+    change MinNumParts with 2.
+    destruct (N.ltb_spec (len peers) 2); [lia|]. destruct (N.ltb_spec MaxNumParts (len peers)); [lia|]. reflexivity.
   - (* ledger acc *)
     use_rt. cbn [from_msg]. rewrite F. cbn [res_bind]. eexists; split; [reflexivity|].
     cbn [to_msg og pla_base pla_part to_baseacc from_baseacc pba_id pba_nonce fst snd]. rewrite T. cbn [res_bind].
@@ -391,10 +413,13 @@ Proof.
     rewrite !copy_to_exact by (apply Nat.eqb_eq; assumption). reflexivity.
   - (* virtual proposal *)
     match goal with H : ramaps_wf _ = true |- _ => unfold ramaps_wf in H end. split_and.
-    match goal with H : forallb ramap_wf ?l = true |- _ => destruct (ramaps_rt l H K) as (tp & P1 & P2) end.
+    match goal with H : forallb ramap_wf ?l = true, K : forallb keys_nonneg ?l = true |- _ =>
+      destruct (ramaps_rt l H K) as (tp & P1 & P2) end.
     use_rt. cbn [from_msg]. rewrite F, F0, P1. cbn [res_bind]. eexists; split; [reflexivity|].
     cbn [to_msg og pvp_base pvp_proposer pvp_peers pvp_parents pvp_imaps]. rewrite T, T0. cbn [res_bind].
     rewrite imaps_rt by assumption. cbn [res_bind]. rewrite P2. cbn [res_bind].
+    match goal with H : (len peers <=? MaxNumParts) = true |- _ => apply N.leb_le in H end.
+    destruct (N.ltb_spec MaxNumParts (len peers)); [lia|].
     rewrite ids_rt by assumption. reflexivity.
   - (* virtual acc *)
     use_rt. cbn [from_msg]. rewrite F. cbn [res_bind]. eexists; split; [reflexivity|].
@@ -606,14 +631,35 @@ Lemma to_msg_np rs m : to_msg rs m <> Panic. Proof. destruct m; cbn [to_msg]; np
 Lemma to_envelope_np rs e : to_envelope rs e <> Panic. Proof. unfold to_envelope. np. Qed.
 
 (* ================= C13: what is accepted is within the documented limits ================= *)
-Lemma to_alloc_valid o a : to_alloc o = Ok a -> alloc_valid a = true.
+Ltac inv_ok H :=
+  repeat match type of H with
+         | res_bind _ _ = Ok _ =>
+             let x := fresh "x" in let E := fresh "E" in apply bind_ok_inv in H as (x & E & H)
+         | (if negb ?c then _ else _) = Ok _ =>
+             let V := fresh "V" in destruct c eqn:V; cbn [negb] in H; [|discriminate]
+         | (if ?c then Err else _) = Ok _ => let V := fresh "V" in destruct c eqn:V; [discriminate|]
+         | (if ?c then _ else Err) = Ok _ => let V := fresh "V" in destruct c eqn:V; [|discriminate]
+         end.
+
+Lemma to_suballoc_amounts o s : to_suballoc o = Ok s -> bigints_ok (sa_bals s) = true.
 Proof.
-  unfold to_alloc. cbv zeta. intro H.
-  apply bind_ok_inv in H as (bk & _ & H).
-  destruct (negb (length bk =? length (pal_assets (og zPAl o)))%nat); [discriminate|].
-  apply bind_ok_inv in H as (as_ & _ & H). apply bind_ok_inv in H as (lk & _ & H).
-  match type of H with (if ?c then _ else _) = _ => destruct c eqn:V; [|discriminate] end.
-  injection H as <-. exact V.
+  unfold to_suballoc. cbv zeta. intro H. inv_ok H. injection H as <-. cbn [sa_bals]. assumption.
+Qed.
+
+(* amounts no longer than MaxBigIntLength, in the balances and in the sub-allocations *)
+Definition alloc_amounts_ok (a : alloc) : bool :=
+  forallb bigints_ok (al_bals a) && forallb (fun l => bigints_ok (sa_bals l)) (al_locked a).
+
+Lemma to_alloc_valid o a : to_alloc o = Ok a -> alloc_valid a = true.
+Proof. unfold to_alloc. cbv zeta. intro H. inv_ok H. injection H as <-. assumption. Qed.
+
+Lemma to_alloc_amounts o a : to_alloc o = Ok a -> alloc_amounts_ok a = true.
+Proof.
+  unfold to_alloc. cbv zeta. intro H. inv_ok H. injection H as <-.
+  unfold alloc_amounts_ok. cbn [al_bals al_locked]. apply andb_true_iff; split; [assumption|].
+  apply forallb_forall. apply Forall_forall.
+  eapply (mapM_ok_Forall to_suballoc (fun s => bigints_ok (sa_bals s) = true)); [|eassumption].
+  intros sx sy Hsx. eapply to_suballoc_amounts; exact Hsx.
 Qed.
 
 Lemma to_state_valid rs o s : to_state rs o = Ok s -> alloc_valid (st_alloc s) = true.
@@ -632,8 +678,21 @@ Qed.
 
 Lemma to_baseprop_valid rs o b : to_baseprop rs o = Ok b -> alloc_valid (bp_bals b) = true.
 Proof.
-  unfold to_baseprop. cbv zeta. intro H. apply bind_ok_inv in H as (a & Ha & H).
-  apply bind_ok_inv in H as (ad & _ & H). injection H as <-. cbn [bp_bals]. eapply to_alloc_valid; exact Ha.
+  unfold to_baseprop. cbv zeta. intro H. inv_ok H. injection H as <-. cbn [bp_bals].
+  eapply to_alloc_valid; eassumption.
+Qed.
+
+Lemma to_baseprop_fa rs o b : to_baseprop rs o = Ok b ->
+  fa_dims_ok (bp_fa b) = true /\ forallb bigints_ok (bp_fa b) = true /\ alloc_amounts_ok (bp_bals b) = true.
+Proof.
+  unfold to_baseprop. cbv zeta. intro H. inv_ok H. injection H as <-. cbn [bp_fa bp_bals].
+  repeat split; try assumption. eapply to_alloc_amounts; eassumption.
+Qed.
+
+Lemma to_state_amounts rs o s : to_state rs o = Ok s -> alloc_amounts_ok (st_alloc s) = true.
+Proof.
+  unfold to_state. cbv zeta. intro H. inv_ok H. injection H as <-. cbn [st_alloc].
+  eapply to_alloc_amounts; eassumption.
 Qed.
 
 Lemma to_update_valid rs o s a g : to_update rs o = Ok (s, a, g) -> alloc_valid (st_alloc s) = true /\ a < 65536.
@@ -887,23 +946,72 @@ Lemma legacy_single_read_refuted rs :
   /\ flatten_res (run_chunked (dec_pframe w_unm rs) w_chunks) = Ok (mkEnv [] [] (MPing 0), []).
 Proof. split; [repeat constructor; discriminate|]. vm_compute. repeat split; reflexivity. Qed.
 
-(* not enforced on the protobuf path (reported, not repaired): the dimensions of a funding agreement,
-   the length of a big integer, the number of peers of a proposal *)
+(* c9b3ae4, b6732bb, 953c29f: the limits that the protobuf path did not enforce - the same trees are
+   accepted by the code as it was and rejected by the repaired conversions *)
 Definition w_palloc : pAllocation :=
   mkPAl [enc_be 4 0] [enc_u64be 5] (Some [Some [[Byte.x01]; [Byte.x02]]]) [].
-Lemma funding_agreement_unbounded rs :
-  exists b, to_baseprop rs (Some (mkPBP [] 1 [] [] [] (Some w_palloc) (Some (repeat None 1025)) [])) = Ok b
-            /\ MaxNumAssets < len (bp_fa b).
-Proof. eexists. split; [vm_compute; reflexivity|]. vm_compute. reflexivity. Qed.
-Lemma bigint_unbounded :
-  exists a, to_alloc (Some (mkPAl [enc_be 4 0] [enc_u64be 5] (Some [Some [repeat Byte.xff 129]]) [])) = Ok a
-            /\ forallb bigints_ok (al_bals a) = false.
-Proof. eexists. split; [vm_compute; reflexivity|]. vm_compute. reflexivity. Qed.
-Lemma peers_unbounded rs :
-  exists b part peers,
-    to_msg rs (PLedgerProp (Some (mkPLP (Some (mkPBP [] 1 [] [] [] (Some w_palloc) None [])) None (repeat None 1025))))
-    = Ok (MLedgerProp b part peers) /\ MaxNumParts < len peers.
-Proof. do 3 eexists. split; [vm_compute; reflexivity|]. vm_compute. reflexivity. Qed.
+Definition w_fa_tree : pBaseProp := mkPBP [] 1 [] [] [] (Some w_palloc) (Some (repeat None 1025)) [].
+Lemma legacy_funding_agreement_unbounded rs :
+  (exists b, Legacy.to_baseprop rs (Some w_fa_tree) = Ok b /\ MaxNumAssets < len (bp_fa b))
+  /\ to_baseprop rs (Some w_fa_tree) = Err.
+Proof. split; [eexists; split; vm_compute; reflexivity|vm_compute; reflexivity]. Qed.
+Definition w_big_tree : pAllocation := mkPAl [enc_be 4 0] [enc_u64be 5] (Some [Some [repeat Byte.xff 129]]) [].
+Lemma legacy_bigint_unbounded :
+  (exists a, Legacy.to_alloc_anylen (Some w_big_tree) = Ok a /\ forallb bigints_ok (al_bals a) = false)
+  /\ to_alloc (Some w_big_tree) = Err.
+Proof. split; [eexists; split; vm_compute; reflexivity|vm_compute; reflexivity]. Qed.
+Definition w_peers_tree : pLedgerProp :=
+  mkPLP (Some (mkPBP [] 1 [] [] [] (Some w_palloc) None [])) None (repeat None 1025).
+Lemma legacy_peers_unbounded rs :
+  (exists b part peers, Legacy.to_ledger_prop rs (Some w_peers_tree) = Ok (MLedgerProp b part peers)
+                        /\ MaxNumParts < len peers)
+  /\ to_msg rs (PLedgerProp (Some w_peers_tree)) = Err.
+Proof. split; [do 3 eexists; split; vm_compute; reflexivity|vm_compute; reflexivity]. Qed.
+
+(* every message: amounts, funding agreements and peers within the limits *)
+Definition fa_ok (b : baseprop) : bool := fa_dims_ok (bp_fa b) && forallb bigints_ok (bp_fa b).
+Definition msg_extra_ok (m : msg) : bool :=
+  match m with
+  | MLedgerProp b _ peers => fa_ok b && (MinNumParts <=? len peers) && (len peers <=? MaxNumParts)
+  | MSubProp b _ => fa_ok b
+  | MVirtProp b _ peers _ _ => fa_ok b && (len peers <=? MaxNumParts)
+  | _ => true
+  end.
+
+Lemma to_update_amounts rs o s a g : to_update rs o = Ok (s, a, g) -> alloc_amounts_ok (st_alloc s) = true.
+Proof.
+  unfold to_update. cbv zeta. intro H. inv_ok H. injection H as <- <- <-. eapply to_state_amounts; eassumption.
+Qed.
+Lemma to_signed_amounts rs o p s g : to_signed rs o = Ok (p, s, g) -> alloc_amounts_ok (st_alloc s) = true.
+Proof.
+  unfold to_signed. cbv zeta. intro H. inv_ok H. injection H as <- <- <-. eapply to_state_amounts; eassumption.
+Qed.
+
+Lemma to_msg_limits2 rs t m : to_msg rs t = Ok m ->
+  Forall (fun a => alloc_amounts_ok a = true) (msg_allocs m) /\ msg_extra_ok m = true.
+Proof.
+  destruct t; cbn [to_msg]; cbv zeta; intro H; inv_ok H;
+    try (injection H as <-; cbn [msg_allocs msg_extra_ok]; split; [repeat constructor|try reflexivity]).
+  all: repeat match goal with
+              | E : to_baseprop _ _ = Ok _ |- _ => apply to_baseprop_fa in E as (? & ? & ?)
+              | E : to_update _ _ = Ok (?s, ?a, ?g) |- _ => apply to_update_amounts in E
+              | E : to_signed _ _ = Ok (?p, ?s, ?g) |- _ => apply to_signed_amounts in E
+              | E : to_state _ _ = Ok _ |- _ => apply to_state_amounts in E
+              | x : (_ * _)%type |- _ => destruct x
+              end; cbn [fst snd] in *; try assumption.
+  all: unfold fa_ok; repeat match goal with |- _ && _ = true => apply andb_true_iff; split end; try assumption.
+  all: try (apply N.leb_le; match goal with V : (_ || _) = false |- _ => apply orb_false_iff in V as [V1 V2];
+            apply N.ltb_ge in V1; apply N.ltb_ge in V2; assumption end).
+  all: try (apply N.leb_le; match goal with V : (_ <? _) = false |- _ => apply N.ltb_ge in V; assumption end).
+Qed.
+
+Lemma to_envelope_limits2 rs t e : to_envelope rs t = Ok e ->
+  Forall (fun a => alloc_amounts_ok a = true) (msg_allocs (e_msg e)) /\ msg_extra_ok (e_msg e) = true.
+Proof.
+  unfold to_envelope. intro H. apply bind_ok_inv in H as (s & _ & H). apply bind_ok_inv in H as (r & _ & H).
+  destruct (pe_msg t) as [m|]; [|discriminate]. apply bind_ok_inv in H as (x & Hx & H). injection H as <-.
+  cbn [e_msg]. eapply to_msg_limits2; exact Hx.
+Qed.
 
 (* ================= statement forms: to_T (norm (from_T v)) = Ok v ================= *)
 Lemma rt_form {A T} (from : A -> res T) (to : T -> res A) (n : T -> T) v :
@@ -972,7 +1080,7 @@ Proof.
   destruct (length bk =? length (pal_assets (og zPAl o)))%nat eqn:L; cbn [negb] in H; [|discriminate].
   apply Nat.eqb_eq in L.
   apply bind_ok_inv in H as (as_ & Ha & H). apply bind_ok_inv in H as (lk & Hl & H).
-  match type of H with (if ?c then _ else _) = _ => destruct c; [|discriminate] end.
+  inv_ok H.
   injection H as <-. cbn [al_assets al_bals al_locked]. repeat split.
   - apply mapM_ok_length in Ha. rewrite Ha, combine_length, L. apply Nat.min_id.
   - apply mapM_ok_length in Hl. exact Hl.
@@ -1127,4 +1235,47 @@ Proof.
   unfold toy_marshal, toy_unmarshal. destruct (penv_eqb m t0) eqn:E; [|discriminate].
   intro H. injection H as <-. apply penv_eqb_ok in E. subst m.
   replace (bytes_eqb b0 b0) with true by (symmetry; apply bytes_eqb_eq; reflexivity). reflexivity.
+Qed.
+
+(* ================= the limits repaired by c9b3ae4, b6732bb, 953c29f: over the limit = rejected ================= *)
+Lemma to_alloc_long_amount_rejected t :
+  forallb bigints_ok (to_balances (pal_balances t)) = false -> to_alloc (Some t) = Err.
+Proof.
+  intro H. apply not_ok_not_panic; [|apply to_alloc_np]. intros a E.
+  pose proof (to_alloc_amounts _ _ E) as A. apply to_alloc_dims in E as (_ & D & _). cbn [og] in D.
+  unfold alloc_amounts_ok in A. apply andb_true_iff in A as [A _]. rewrite D, H in A. discriminate.
+Qed.
+
+Lemma to_suballoc_long_amount_rejected t :
+  bigints_ok (to_balance (psa_bals t)) = false -> to_suballoc (Some t) = Err.
+Proof.
+  intro H. unfold to_suballoc. cbn [og]. cbv zeta. unfold balance_lengths_ok. rewrite H. reflexivity.
+Qed.
+
+Lemma to_baseprop_fa_rejected rs t :
+  fa_dims_ok (to_balances (pbp_fa t)) = false \/ forallb bigints_ok (to_balances (pbp_fa t)) = false ->
+  to_baseprop rs (Some t) = Err.
+Proof.
+  intro H. apply not_ok_not_panic; [|apply to_baseprop_np]. intros b E.
+  pose proof (to_baseprop_fa _ _ _ E) as (F1 & F2 & _).
+  revert E. unfold to_baseprop. cbn [og]. cbv zeta. intro E. inv_ok E. injection E as <-. cbn [bp_fa] in F1, F2.
+  destruct H as [H|H]; [rewrite H in F1|rewrite H in F2]; discriminate.
+Qed.
+
+Lemma to_ledger_peers_rejected rs p :
+  len (plp_peers p) < MinNumParts \/ MaxNumParts < len (plp_peers p) -> to_msg rs (PLedgerProp (Some p)) = Err.
+Proof.
+  intro H. apply not_ok_not_panic; [|apply to_msg_np]. intros m E. cbn [to_msg og] in E. cbv zeta in E. inv_ok E.
+  match goal with E : to_ramaps _ = Ok _ |- _ => apply mapM_ok_length in E end.
+  match goal with V : (_ || _) = false |- _ => apply orb_false_iff in V as [V1 V2]; apply N.ltb_ge in V1, V2 end.
+  unfold len in *. destruct H; lia.
+Qed.
+
+Lemma to_virtual_peers_rejected rs p :
+  MaxNumParts < len (pvp_peers p) -> to_msg rs (PVirtProp (Some p)) = Err.
+Proof.
+  intro H. apply not_ok_not_panic; [|apply to_msg_np]. intros m E. cbn [to_msg og] in E. cbv zeta in E. inv_ok E.
+  match goal with E : to_ramaps _ = Ok _ |- _ => apply mapM_ok_length in E end.
+  match goal with V : (_ <? _) = false |- _ => apply N.ltb_ge in V end.
+  unfold len in *. lia.
 Qed.
